@@ -20,7 +20,7 @@ def validate_decoded(integer):
       "{} is not a positive integer".format(integer))
 
 def validate_encoded(string):
-  if not re.match(r"^[0-9]+$", string):
+  if not re.match(r"^[0-9]+\Z", string):
     raise gfapy.FormatError(
       "{} does not represent a valid unsigned integer".format(repr(string)))
 
